@@ -69,6 +69,12 @@ func (x *Exec) evalRealCall(n *ast.CallExpr, st *State, env *Env) Val {
 	if h, ok := libHandlers[full]; ok {
 		return h(x, n, recv, recvExpr, st, env)
 	}
+	// table builders (nullary functions returning a map literal of closures): the table's identity
+	if fi := x.g.funcByObj[fn.Origin()]; fi != nil {
+		if tf, ok := x.g.tableByFn[fi.Key]; ok {
+			return Val{T: intLit(int64(tf.ID)), Ty: fi.Sig.Results().At(0).Type()}
+		}
+	}
 	// functions of the repository with a contract
 	if fi := x.g.funcByObj[fn.Origin()]; fi != nil {
 		if con := x.g.cs.Funcs[fi.Key]; con != nil {
